@@ -219,6 +219,10 @@ func runC20(r *Run) {
 	// --- composition-critical obligations shared with C16 / C13
 	r.checkCut(P)
 	r.checkReaderLayout(P, r.checkWriterChunkOrder(P))
+	// the reference state machine at both ends of the pipeline: one operation per DID per batch on the way in
+	// (the rest is re-queued), recovery chain then update chain on the way out
+	r.checkPartition(P)
+	r.checkFullThenUpdate(P)
 
 	// --- same.path
 	if f := r.fn(P, pkgDocHandler, "GetCreateResult"); f != nil {
